@@ -12,6 +12,7 @@ import ArvVerif.Proofs.C16
 import ArvVerif.Proofs.C16_Complete
 import ArvVerif.Proofs.C16_RunQueue
 import ArvVerif.Proofs.C16_RunQueue2
+import ArvVerif.Proofs.C16_Queue
 namespace ArvVerif.C16
 
 /-! ## Part A -/
@@ -402,6 +403,53 @@ theorem C16_sort_exec (entries : List Ent) : IsSorted entries (sortEnts entries)
     (by intro a b; simp only [geP, Bool.or_eq_true, decide_eq_true_eq]; omega) entries
   exact this.imp (by intro a b h; simpa [geP] using h)
 
+/-! ## Part C: container.Queue, the cache between ChooseInstanceType / the controller and runQueue -/
+open Q
+
+/-- **No arbitrary type reaches the scheduler.** After any history of Update / Lock / Unlock / Cancel
+calls, for any type chooser: every cache entry's instance type is what the chooser returned for that
+container when it was added; the zero-valued type (`none`) occurs only for a container that was
+neither Queued nor Locked when it was added (runQueue never acts on those). With
+`C16_adequate`/`C16_cheapest` for the chooser this is: a schedulable entry carries a cheapest adequate
+configured type. -/
+theorem C16_queue_no_arbitrary_type (choose : Nat → Option Nat) (ops : List QOp) (u : Nat) (e : CEnt)
+    (h : (u, e) ∈ (runOps choose ops emptyCache).current) :
+    choose e.addedNeed = e.ty ∧ (e.ty = none → e.addedSt ≠ .queued ∧ e.addedSt ≠ .locked) :=
+  typesOK_runOps choose ops emptyCache (fun _ hp => by cases hp) (u, e) h
+
+/-- **An unsatisfiable Queued or Locked container is not added**; a cancel task is started instead
+(lock if Queued, set runtime_status.error, cancel). -/
+theorem C16_queue_unsat_not_added (choose : Nat → Option Nat) (cur : List (Nat × CEnt)) (r : Rec)
+    (hc : choose r.need = none) (hs : r.st = .queued ∨ r.st = .locked) :
+    addEnt choose cur r = (cur, true) := by
+  unfold addEnt
+  rw [hc]
+  dsimp only
+  rw [if_pos hs]
+
+/-- **A poll does not clobber local updates.** An entry whose Lock / Unlock / Cancel response arrived
+while the poll was in flight (its uuid is in `dontupdate`) is neither overwritten with the older
+polled record, nor expunged, nor (if absent) added by the poll: runQueue's next snapshot shows the
+state the controller confirmed last. -/
+theorem C16_queue_local_update_survives_poll (choose : Nat → Option Nat) (c : Cache) (next : List Rec) (v : Nat)
+    (hv : inDont c.dontupdate v = true) :
+    lookup (applyPoll choose c next).1.current v = lookup c.current v := by
+  unfold applyPoll expunge
+  dsimp only
+  rw [lookup_filter, lookup_applyRecs_dont choose c.dontupdate next c.current [] v hv]
+  intro p _ hp
+  rw [hp, hv]; rfl
+
+/-- a Lock / Unlock / Cancel response that arrives while an Update is in progress is remembered -/
+theorem C16_queue_resp_recorded (c : Cache) (l : List Nat) (u : Nat) (st : QState) (prio : Int)
+    (h : c.dontupdate = some l) : inDont (localResp c u st prio).dontupdate u = true := by
+  unfold localResp
+  cases hl : lookup c.current u <;>
+  · simp only [h, Option.map_some, inDont]
+    by_cases hc : l.contains u = true
+    · simp only [hc, if_true]
+    · simp only [hc, Bool.false_eq_true, if_false, List.contains_cons, BEq.rfl, Bool.true_or]
+
 /-! ## Non-vacuity: concrete instances of the hypotheses, and witnesses of the stated exceptions -/
 
 def exA : IType := { name := 1, vcpus := 1, ram := 2000, scratch := 10, price := 64, preemptible := false }
@@ -464,5 +512,16 @@ def flakyPool : Pool Nat where
 example : runQueue flakyPool 0 (fun _ => 0) [0] exEnts =
     [.create 1 0 false, .create 2 0 true, .kill true 2 false, .start 0 2 true, .kill false 3 false, .lockgo 3] := by
   decide
+
+/-- the seeded-change scenario C16-f on the model: container 1 is Queued when the controller answers
+the poll, its lock is granted while the poll is in flight; the cache ends with 1 Locked -/
+example :
+    let c0 : Cache := { current := [(1, { st := .queued, prio := 5, ty := some 0, addedSt := .queued, addedNeed := 1 })],
+                        dontupdate := none }
+    lookup (runOps (fun _ => some 0) [.begin, .resp 1 .locked 5, .poll [{ uuid := 1, st := .queued, prio := 5, need := 1 }]] c0).current 1 =
+      some { st := .locked, prio := 5, ty := some 0, addedSt := .queued, addedNeed := 1 } := by decide
+/-- the scenario C16-e on the model: an unsatisfiable Locked container is not added -/
+example : (applyPoll (fun _ => none) emptyCache [{ uuid := 1, st := .locked, prio := 5, need := 9 }]).1.current = [] ∧
+    (applyPoll (fun _ => none) emptyCache [{ uuid := 1, st := .locked, prio := 5, need := 9 }]).2 = [1] := by decide
 
 end ArvVerif.C16
